@@ -231,7 +231,7 @@ def run_shard(spec, tier, seed):
                                 if op.result == "angle":
                                     err = R.angdiff(sym, num)
                                 else:
-                                    err = E.rel_error(op, sym, num, unit, gain)
+                                    err = E.rel_error(op, sym, num, unit, gain) / E.cond_gain(op, self_l, args, TOL)
                                 res.err("sympy-vs-mp:" + op.group, err)
                                 ok, why = err <= TOL, f"rel_error {mpmath.nstr(err, 5)} symbolic {mpmath.nstr(sym, 20)} numeric {mpmath.nstr(num, 20)}"
                             if not ok:
@@ -311,7 +311,7 @@ def run_shard(spec, tier, seed):
                                             except R.NotRepresentable:
                                                 pass
                                     else:
-                                        err = R.angdiff(sym, num) if op.result == "angle" else E.rel_error(op, sym, num, unit, gain)
+                                        err = R.angdiff(sym, num) if op.result == "angle" else E.rel_error(op, sym, num, unit, gain) / E.cond_gain(op, self_l, args, TOL)
                                         ok, why = err <= TOL, f"rel_error {mpmath.nstr(err, 5)} symbolic {mpmath.nstr(sym, 20)} numeric {mpmath.nstr(num, 20)}"
                                     if not ok:
                                         res.violation(f"C08/numeric-coordinates-expression-disagrees-with-numeric-backend op={op.name}",
